@@ -86,11 +86,21 @@ func p4scenario(v int) []p4step {
 			}
 		}}
 	}
+	modRemoveQer := func(name string) p4step {
+		return p4step{"mod " + name + " remove qer", func(w *world, ss map[string]*hsess) {
+			if h := ss[name]; h != nil && len(h.qers) > 0 {
+				id := h.qers[len(h.qers)-1].ID
+				if w.mod(0, h.up, modReq{rq: []uint32{id}}, "c15-remove-qer").Cause == 1 {
+					h.qers = h.qers[:len(h.qers)-1]
+				}
+			}
+		}}
+	}
 	switch v % 3 {
 	case 0:
 		return []p4step{est("A", 1, 0), est("B", 2, 0), modFar("A", 0x0C, true), modFar("A", 2, true), modQer("B"), del("B"), est("C", 3, 0), modFar("C", 2, true), del("A"), del("C"), est("D", 4, 1), del("D")}
 	case 1:
-		return []p4step{est("A", 1, 1), est("B", 2, 2), modQer("A"), del("A"), est("C", 3, 1), est("D", 4, 0), del("B"), del("C"), del("D")}
+		return []p4step{est("A", 1, 1), est("B", 2, 2), modQer("A"), modRemoveQer("A"), del("A"), est("C", 3, 1), est("D", 4, 0), del("B"), del("C"), del("D")}
 	default:
 		return []p4step{est("A", 1, 2), est("B", 2, 0), modFar("B", 0x0C, true), del("B"), est("C", 3, 0), modFar("C", 2, true), del("A"), del("C")}
 	}
@@ -149,7 +159,7 @@ func c15(c *ctx) {
 			}{{f.step, f.k, f.mode, f.j, f.code}}, r)
 		}
 		// --- random multi-fault sequences
-		for m := 0; m < c.pick(6, 60); m++ {
+		for m := 0; m < c.pick(6, 600); m++ {
 			var fs []struct {
 				step, k int
 				mode    string
